@@ -55,7 +55,7 @@ GetFails(ev, before) ==
 RECURSIVE ObsVal(_)
 ObsVal(v) == IF v.t = "a" THEN [i \in 1..Len(v.el) |-> ObsVal(v.el[i])] ELSE [t |-> v.t, n |-> v.n, b |-> v.b]
 ObsLines(lines) == { [addr |-> lines[i].addr, vals |-> [j \in 1..Len(lines[i].vals) |-> ObsVal(lines[i].vals[j])]] : i \in 1..Len(lines) }
-ExpLine(st, ln) == IF ln.addr \in {"/ai", "/af", "/at"}
+ExpLine(st, ln) == IF ln.addr \in ArrayLineAddrs
                    THEN LET f == SubSeq(ln.addr, 2, Len(ln.addr))  p == Param(ln.addr \o "0") IN
                         [addr |-> ln.addr, vals |-> << [i \in 1..Len(ln.vals[1]) |-> ValOf(p, ln.vals[1][i])] >>]
                    ELSE LET p == Param(ln.addr) IN [addr |-> ln.addr, vals |-> << FileValOf(p, GetV(st, p)) >>]
@@ -76,7 +76,7 @@ PermFails(ev, st) ==
 \* a file from which one line is missing (possibly one that others depend on): every message that still finds its port is applied
 \* exactly as if the lines stood in dependency order; a line whose port does not exist any more makes the load fail
 SeqToLines(st, idxs, lines) == { ln \in SaveLines(st) : \E i \in idxs : lines[i].addr = ln.addr }
-AllFound(lines) == \A ln \in lines : Param(ln.addr \o (IF ln.addr \in {"/ai", "/af", "/at"} THEN "0" ELSE "")).where # "psub" \/ (\E m \in lines : m.addr = "/palloc")
+AllFound(lines) == \A ln \in lines : Param(ln.addr \o (IF ln.addr \in ArrayLineAddrs THEN "0" ELSE "")).where # "psub" \/ (\E m \in lines : m.addr = "/palloc")
 DropFails(ev, st) ==
   {k \in {"c13:missing_line_state", "c13:missing_line_result"} :
    ~ CASE k = "c13:missing_line_state" -> \A i \in 1..Len(ev.drops) :
